@@ -117,7 +117,8 @@ void ProtoRun::filter_record(Record &r, std::vector<Bytes> &out) {
         bool prot = pc.dtls() ? r.epoch > 0 : ccs_emitted[dir];
         uint32_t suite = snd.alive() ? snd.negotiated_suite() : 0;
         if (prot && suite && !suite_is_aead((uint16_t) suite) && !suite_is_tls13((uint16_t) suite) && r.type != 20) { audit.on_wire_cbc_record(snd.ssl, r.raw.data() + r.hdr, r.body_len(), pc.dtls()); }
-        if (r.type == 20) { ccs_emitted[dir] = true; }
+        if (prot && suite && suite_is_aead((uint16_t) suite) && !suite_is_tls13((uint16_t) suite) && !pc.dtls() && r.type != 20 && suite != TLS_CHACHA20_POLY1305_SHA256) { audit.on_wire_gcm12_record(snd.ssl, r.raw.data() + r.hdr, r.body_len()); }
+        if (r.type == 20) { ccs_emitted[dir] = true; audit.wire_gcm_last.erase((uintptr_t) snd.ssl); }
         if (pc.dtls() && r.epoch > 0 && snd.alive()) { audit.on_wire_dtls_record(snd.ssl, r.epoch, r.seq, r.raw.data(), r.raw.size()); }
     }
     Armed &a = armed[dir];
@@ -581,6 +582,7 @@ void ProtoRun::do_op(const Op &op) {
         size_t len = (size_t) op.b;
         if (pc.dtls() && len > 900) { len = 900; }
         if (len == 0) { len = 1; }
+        if ((op.c & 8) && !pc.dtls()) { len = 0; obs.counters["app.empty_record_write"]++; }     // an empty application record (matrixSslGetWritebuf + matrixSslEncodeWritebuf(0))
         int idx = (int) (obs.sent[dir].size() + (size_t) encode_attempts++);
         Bytes pl = tagged_payload(dir, idx, len);
         bool complete_before = e.is_complete();
